@@ -4,6 +4,7 @@ import (
 	"encoding/json"
 	"errors"
 	"fmt"
+	"math"
 	"os"
 	"path/filepath"
 	"sync"
@@ -148,7 +149,9 @@ func (c *Config) Validate() error {
 		return fmt.Errorf("%w: Compaction levels must be positive", ErrInvalidConfig)
 	}
 
-	if c.CompactionRatio <= 1.0 {
+	// NaN compares false with everything and +Inf cannot be stored in the
+	// JSON manifest: only a finite ratio greater than 1.0 is valid.
+	if !(c.CompactionRatio > 1.0) || math.IsInf(c.CompactionRatio, 0) {
 		return fmt.Errorf("%w: Compaction ratio must be greater than 1.0", ErrInvalidConfig)
 	}
 
